@@ -213,6 +213,16 @@ impl FuelConverter {
                 pwr_out_req.get::<si::megawatt>()
             )
         );
+        // if the engine is not on, `pwr_out_req` should be 0.0; checked before any state is
+        // written so that a rejected request does not move `pwr_brake`, which the next
+        // transient limit ramps from
+        ensure!(
+            engine_on || pwr_out_req == si::Power::ZERO,
+            format!(
+                "{}\nEngine is off but pwr_out_req is non-zero",
+                format_dbg!(engine_on || pwr_out_req == si::Power::ZERO)
+            )
+        );
         self.state.pwr_brake = pwr_out_req;
         self.state.eta = uc::R
             * interp1d(
@@ -236,14 +246,6 @@ impl FuelConverter {
         } else {
             si::Power::ZERO
         };
-        // if the engine is not on, `pwr_out_req` should be 0.0
-        ensure!(
-            self.state.engine_on || pwr_out_req == si::Power::ZERO,
-            format!(
-                "{}\nEngine is off but pwr_out_req is non-zero",
-                format_dbg!(self.state.engine_on || pwr_out_req == si::Power::ZERO)
-            )
-        );
         self.state.pwr_fuel = pwr_out_req / self.state.eta + self.state.pwr_idle_fuel;
         self.state.pwr_loss = self.state.pwr_fuel - self.state.pwr_brake;
 
